@@ -98,6 +98,7 @@ var strKeys = map[string]string{"k0": "", "ka": "a", "kab": "ab", "kb": "b"}
 type builder struct {
 	seed     int64
 	variant  int
+	sig65    bool     // 65-byte blobs are signatures: the recovery byte is 0 or 1
 	payloads [][]byte // in encoding order, non-empty ones only
 }
 
@@ -172,6 +173,9 @@ func (b *builder) build(t tdesc, v vdesc, path string) (reflect.Value, error) {
 		b.push([]byte{byte(v.N)})
 	case "blob":
 		p := genPayload(v.N, v.C, b.rnd(path))
+		if b.sig65 && v.N == 65 {
+			p[64] &= 1
+		}
 		b.push(p)
 		if gt.Kind() == reflect.String {
 			res.SetString(string(p))
